@@ -344,8 +344,36 @@ func (c *ctx) walkStmt(s ast.Stmt, prev, next ast.Stmt, chanKey *string, inList 
 	case *ast.GoStmt:
 		c.goStmt(s)
 	case *ast.DeferStmt:
+		// R8: deferred Lock/Unlock of a sync mutex
+		if kind, recv := c.syncLockCall(s.Call); kind != "" {
+			c.fe.needHook = true
+			switch kind {
+			case "Lock", "RLock":
+				c.fe.add(c.off(s.Pos()), c.off(s.End()), fmt.Sprintf("defer func() { verifhook.BeforeLock(%q, %s); %s.%s(); verifhook.Locked() }()", c.site("lock"), c.keyExpr(nil), recv, kind))
+			default:
+				c.fe.add(c.off(s.Pos()), c.off(s.End()), fmt.Sprintf("defer func() { %s.%s(); verifhook.Unlocked() }()", recv, kind))
+			}
+			stats["R8.lock_yield"]++
+			return
+		}
 		c.walkExpr(s.Call)
 	case *ast.ExprStmt:
+		// R8: Lock/Unlock of a sync mutex: a scheduling point before a goroutine
+		// that holds no lock takes one, and lock-depth bookkeeping
+		if call, ok := s.X.(*ast.CallExpr); ok {
+			if kind, _ := c.syncLockCall(call); kind != "" {
+				c.fe.needHook = true
+				switch kind {
+				case "Lock", "RLock":
+					c.fe.add(c.off(s.Pos()), c.off(s.Pos()), fmt.Sprintf("verifhook.BeforeLock(%q, %s); ", c.site("lock"), c.keyExpr(nil)))
+					c.fe.add(c.off(s.End()), c.off(s.End()), "; verifhook.Locked()")
+				default:
+					c.fe.add(c.off(s.End()), c.off(s.End()), "; verifhook.Unlocked()")
+				}
+				stats["R8.lock_yield"]++
+				return
+			}
+		}
 		// R2: call of a local func() variable inside a channel-range body
 		if chanKey != nil && inList {
 			if call, ok := s.X.(*ast.CallExpr); ok && len(call.Args) == 0 {
@@ -486,6 +514,32 @@ func (c *ctx) fanoutKey() string {
 		}
 	}
 	return c.keyExpr(nil)
+}
+
+// syncLockCall: call is X.Lock(), X.RLock(), X.Unlock() or X.RUnlock() of a
+// sync.Mutex / sync.RWMutex; returns the method name and the source text of X.
+func (c *ctx) syncLockCall(call *ast.CallExpr) (string, string) {
+	if len(call.Args) != 0 {
+		return "", ""
+	}
+	sel, ok := call.Fun.(*ast.SelectorExpr)
+	if !ok {
+		return "", ""
+	}
+	switch sel.Sel.Name {
+	case "Lock", "RLock", "Unlock", "RUnlock":
+	default:
+		return "", ""
+	}
+	selection := c.p.TypesInfo.Selections[sel]
+	if selection == nil {
+		return "", ""
+	}
+	fn, ok := selection.Obj().(*types.Func)
+	if !ok || fn.Pkg() == nil || fn.Pkg().Path() != "sync" {
+		return "", ""
+	}
+	return sel.Sel.Name, c.text(sel.X)
 }
 
 func (c *ctx) hasLocalFuncCallList(list []ast.Stmt) bool {
@@ -716,7 +770,11 @@ const hookSrc = `//go:build verif
 // no-op and Keys returns Go's own iteration order.
 package verifhook
 
-import "sync/atomic"
+import (
+	"runtime"
+	"sync"
+	"sync/atomic"
+)
 
 var (
 	// PointFn parks the calling goroutine until the scheduler releases it.
@@ -729,7 +787,72 @@ var (
 	OrderFn func(site string, n int, key func(i int) any, swap func(i, j int))
 	// SeenFn registers an object used as a map key.
 	SeenFn func(k any)
+	// LockFn is called before a goroutine takes a sync mutex (held: the number
+	// of instrumented locks it holds already). Nil: no bookkeeping at all.
+	LockFn func(site, key string, held int, gid uint64)
 )
+
+var (
+	depthMu sync.Mutex
+	depth   = map[uint64]int{}
+)
+
+func goid() uint64 {
+	var b [40]byte
+	n := runtime.Stack(b[:], false)
+	// "goroutine 123 ["
+	var id uint64
+	for _, c := range b[10:n] {
+		if c < '0' || c > '9' {
+			break
+		}
+		id = id*10 + uint64(c-'0')
+	}
+	return id
+}
+
+// BeforeLock, Locked and Unlocked bracket every Lock/Unlock of a sync mutex.
+func BeforeLock(site, key string) {
+	if f := LockFn; f != nil {
+		g := goid()
+		depthMu.Lock()
+		d := depth[g]
+		depthMu.Unlock()
+		f(site, key, d, g)
+	}
+}
+
+func Locked() {
+	if LockFn != nil {
+		g := goid()
+		depthMu.Lock()
+		depth[g]++
+		depthMu.Unlock()
+	}
+}
+
+func Unlocked() {
+	if LockFn != nil {
+		g := goid()
+		depthMu.Lock()
+		if depth[g] <= 1 {
+			delete(depth, g)
+		} else {
+			depth[g]--
+		}
+		depthMu.Unlock()
+	}
+}
+
+// GoID identifies the calling goroutine.
+func GoID() uint64 { return goid() }
+
+// ResetLocks forgets the bookkeeping (between runs).
+func ResetLocks() {
+	depthMu.Lock()
+	depth = map[uint64]int{}
+	depthMu.Unlock()
+}
 
 var ticket atomic.Uint64
 
